@@ -448,7 +448,8 @@ def solve(conds, timeout_s=60, exp_axioms=True, pair_axioms=True, want_smt2=Fals
         remaining = deadline - time.time()
         if remaining <= 0.5:
             break
-        share = remaining if k == len(levels) - 1 else max(2.0, remaining / (len(levels) - k))
+        # earlier levels are cheap attempts with fewer facts: cap them so that a large budget goes to the complete level
+        share = remaining if k == len(levels) - 1 else min(40.0, max(2.0, remaining / (len(levels) - k)))
         low = Lowering(roots, exp_axioms, pair_axioms, level=lv)
         zs = [low.b(c) for c in conds]
         s = z3.Solver() if tactic is None else z3.Then(*tactic).solver() if isinstance(tactic, (list, tuple)) \
@@ -547,10 +548,25 @@ def search_model(conds, seed=0, tries=4000, time_s=20.0):
     import random
     rnd = random.Random(seed * 7919 + 13)
     conds = [c for c in conds if not (c.kind == "const" and c.args[0])]
-    atoms = T.collect_atoms(list(conds))
+    # equalities that are linear in a variable (root-finder / exact-solve contracts) cannot be hit by sampling: solve them
+    # for that variable first; the variable's value is then computed from the sample
+    flat = []
+    for c in conds:
+        flat.extend(c.args if c.kind == "and" else [c])
+    lo0, hi0 = _var_bounds(flat)
+    try:
+        conds, subs = eliminate(flat)
+    except Exception:  # noqa: BLE001
+        conds, subs = flat, []
+    # bounds of eliminated variables were substituted into `conds` as general inequalities and are checked there
+    atoms = T.collect_atoms(list(conds) + [e for _, e in subs])
     vars_ = [a for a in atoms if a.kind == "var"]
     uf_names = {a.args[0]: a.pos for a in atoms if a.kind == "uf"}
     lo, hi = _var_bounds(conds)
+    for n, v in lo0.items():
+        lo.setdefault(n, v)
+    for n, v in hi0.items():
+        hi.setdefault(n, v)
     t0 = time.time()
     for k in range(tries):
         if time.time() - t0 > time_s:
@@ -592,6 +608,8 @@ def search_model(conds, seed=0, tries=4000, time_s=20.0):
         try:
             memo = {}
             if all(T.evalf(c, env, ufs, memo) for c in conds):
+                for v_at, e in subs:
+                    env[v_at.args[0]] = T.evalf(e, env, ufs, memo)
                 model = {n: Fraction(repr(v)) for n, v in env.items()}
                 if calls:
                     model["__uf__"] = {n: [([Fraction(repr(x)) for x in key], Fraction(repr(val))) for key, val in d.items()] for n, d in calls.items()}
